@@ -5,6 +5,7 @@ import (
 	"fmt"
 	"os"
 	"path/filepath"
+	"sort"
 	"strings"
 
 	"verif/vp/core"
@@ -24,7 +25,12 @@ func (h *H) evalFault(c *core.Case, s *Scenario, dir, world string, r *run) {
 	switch s.PkgVariant {
 	case "existing-dir":
 		cfg.Invoke = "rootrel"
+		var names []string
 		for name := range c.Files {
+			names = append(names, name)
+		}
+		sort.Strings(names)
+		for _, name := range names {
 			if strings.HasSuffix(name, ".go") && !strings.HasPrefix(name, c.SrcDir+"/") && strings.Count(name, "/") == 1 {
 				cfg.Pkg = filepath.Dir(name)
 				cfg.DestKind = "other"
@@ -34,6 +40,22 @@ func (h *H) evalFault(c *core.Case, s *Scenario, dir, world string, r *run) {
 	case "missing-dir":
 		cfg.Pkg = "nosuchdirpkg"
 		cfg.DestKind = "other"
+	case "needs-require":
+		// -pkg names a directory whose package could only be loaded after a go.mod edit (a replaced module that
+		// is not required): probing it must not make the go command rewrite go.mod
+		if !c.Gopath {
+			_ = os.MkdirAll(filepath.Join(root, "extmod", "pkg"), 0o755)
+			_ = os.WriteFile(filepath.Join(root, "extmod", "go.mod"), []byte("module example.org/ext\n\ngo 1.24\n"), 0o644)
+			_ = os.WriteFile(filepath.Join(root, "extmod", "pkg", "p.go"), []byte("package pkg\n\ntype T int\n"), 0o644)
+			_ = os.MkdirAll(filepath.Join(root, "extuser"), 0o755)
+			_ = os.WriteFile(filepath.Join(root, "extuser", "u.go"), []byte("package extuser\n\nimport \"example.org/ext/pkg\"\n\nvar _ pkg.T\n"), 0o644)
+			if gm, err := os.ReadFile(filepath.Join(root, "go.mod")); err == nil {
+				_ = os.WriteFile(filepath.Join(root, "go.mod"), append(gm, []byte("\nreplace example.org/ext => ./extmod\n")...), 0o644)
+			}
+			cfg.Invoke = "rootrel"
+			cfg.Pkg = "extuser"
+			cfg.DestKind = "other"
+		}
 	}
 
 	// expected output: the same arguments in stdout mode on the pristine tree
